@@ -116,7 +116,7 @@ func (c02Suite) Gen(rng *Rng, tier string, w *bufio.Writer, stats *Stats) {
 		name string
 		qs   []string
 	}{{"suffix", focusedSuffixShapes()}, {"aggregate", focusedAggregateShapes()}, {"agg-traversal", focusedAggTraversalShapes()},
-		{"collect-membership", focusedCollectMembershipShapes()}, {"scope", focusedScopeShapes()}} {
+		{"collect-membership", focusedCollectMembershipShapes()}, {"scope", focusedScopeShapes()}, {"path-predicate", focusedPathPredicateShapes()}, {"string-literal", focusedStringLiteralShapes()}} {
 		for _, q := range fam.qs {
 			emitFixedSeed("focused:"+fam.name, q)
 			stats.Inc("focused." + fam.name)
@@ -153,6 +153,14 @@ func (c02Suite) Gen(rng *Rng, tier string, w *bufio.Writer, stats *Stats) {
 	for i := 0; i < nfrag; i++ {
 		emit("fragment:s2b", fg.s2Query(), 0, 0)
 		stats.Inc("fragment.s2b")
+	}
+	for i := 0; i < nfrag/2; i++ {
+		emit("fragment:s2c", fg.chainQuery(), 0, 0)
+		stats.Inc("fragment.s2c")
+	}
+	for i := 0; i < nfrag/2; i++ {
+		emit("fragment:s1c", fg.countQuery(), 0, 0)
+		stats.Inc("fragment.s1c")
 	}
 	for _, k := range []string{"", ":NodeKind1", ":NodeKind2", ":NodeKind1:NodeKind2", ":NodeKind2:NodeKind1"} {
 		emit("fragment:count", "match (n"+k+") return count(n)", 0, 0)
